@@ -449,7 +449,8 @@ class Interp:
         # ``return a if c else b`` with an undecided c is two return paths
         if isinstance(st.value, ast.IfExp):
             c = self.eval(st.value.test, env)
-            if self.truth(c) is None and self.assumed(st.value.test) is None:
+            if self.truth(c) is None and \
+                    self.assumed(st.value.test, env) is None:
                 outs = []
                 for arm, pol in ((st.value.body, True),
                                  (st.value.orelse, False)):
@@ -462,6 +463,10 @@ class Interp:
                     finally:
                         self.cond -= 1
                     outs.append(Outcome('ret', e, v, node=st))
+                cj = self.cond_join(st.value.test, env, outs[0].val,
+                                    outs[1].val)
+                if cj is not None:
+                    return [Outcome('ret', env, cj, node=st)]
                 return outs
         v = self.eval(st.value, env) if st.value is not None else NONE()
         if self.cond > 0:
@@ -664,7 +669,7 @@ class Interp:
         cond = self.eval(st.test, env)
         t = self.truth(cond)
         if t is None:
-            t = self.assumed(st.test)
+            t = self.assumed(st.test, env)
             if t is not None:
                 self.add_fact(env, st.test, t)
         if t is True:
@@ -698,6 +703,9 @@ class Interp:
         finally:
             self.cond -= 1
             self.cond_tests.pop()
+            # the ordering facts of the arm that ran last do not hold after it
+            from . import poly as _poly
+            _poly.ORDER_FACTS[:] = list(env.get('$order', ()))
         n1 = [o.env for o in o1 if o.kind == 'next']
         n2 = [o.env for o in o2 if o.kind == 'next']
         rest = [o for o in o1 + o2 if o.kind != 'next']
@@ -719,15 +727,36 @@ class Interp:
         nxt = n1 + n2
         if len(nxt) >= 2:
             merged = self.join_envs(nxt)
+            if len(n1) == 1 and len(n2) == 1:
+                # integer variables set by the arms of a comparison:
+                #   if q > r: q = r        ->  q = min(q, r)
+                for nm in list(merged):
+                    if nm.startswith('$'):
+                        continue
+                    v1, v2 = n1[0].get(nm), n2[0].get(nm)
+                    if isinstance(v1, AV) and isinstance(v2, AV) and \
+                            v1 is not v2 and v1.k == 'int' and v2.k == 'int':
+                        cj = self.cond_join(st.test, env, v1, v2)
+                        if cj is not None:
+                            merged[nm] = cj
             return rest + [Outcome('next', merged)]
         return rest + [Outcome('next', e) for e in nxt]
 
-    def assumed(self, test):
+    def assumed(self, test, env=None):
         """Case split requested by the caller: opts['assume'] maps
         (function qualname, normalised test source) -> bool."""
         table = self.opts.get('assume')
         if not table:
             return None
+        # a boolean temporary (is_wide = m <= n) is decided as its definition
+        pol = True
+        t0 = test
+        while isinstance(t0, ast.UnaryOp) and isinstance(t0.op, ast.Not):
+            t0, pol = t0.operand, not pol
+        if env is not None and isinstance(t0, ast.Name) and \
+                t0.id in env.get('$bdefs', {}):
+            r = self.assumed(env['$bdefs'][t0.id][0], env)
+            return None if r is None else (r if pol else not r)
         where = self.where()
         src = model.norm_src(self.mod(), test)
         if (where, src) in table:
@@ -1266,6 +1295,16 @@ class Interp:
                     nb.items = its
                 if base.uninit:
                     nb.uninit = base.uninit
+                # zeros(...)[x > 0] = 1 / x[x > 0]: the guarded reciprocals of
+                # the singular values (zero where the value is zero)
+                if base.note == 'zeros' and v.k == 'arr' and \
+                        v.orth == 'invsing' and idx.k == 'arr' and \
+                        idx.dt == 'b' and isinstance(idx.rel, tuple) and \
+                        idx.rel[0] == 'nzmask' and base.dims is not None and \
+                        len(base.dims) == 1:
+                    nb.orth = 'invsing'
+                    nb.src = v.src
+                    nb.taint = base.taint
                 self.rebind_array(env, target.value.id, base, nb)
             else:
                 self._store_into_element(target.value, base, v, env, st)
@@ -1534,7 +1573,7 @@ class Interp:
         c = self.eval(node.test, env)
         t = self.truth(c)
         if t is None:
-            t = self.assumed(node.test)
+            t = self.assumed(node.test, env)
             if t is not None:
                 e = dict(env)
                 self.add_fact(e, node.test, t)
@@ -1557,7 +1596,61 @@ class Interp:
         finally:
             self.cond -= 1
             self.weak -= 1
+        cj = self.cond_join(node.test, env, a, b)
+        if cj is not None:
+            return cj
         return self.np.join_ifexp(a, b, node)
+
+    def cond_join(self, test, env, vt, vf):
+        """Exact value of ``vt if test else vf`` for integer polynomials when
+        the test relates them:
+
+        * ``x if x >= y else y`` (any orientation / strictness)  ->  max / min;
+        * ``c if P == c' else f(P)`` with f(c') == c  ->  f(P)  (the special
+          case is the general formula at that point).
+        Returns None when neither applies."""
+        pol = True
+        while isinstance(test, ast.UnaryOp) and isinstance(test.op, ast.Not):
+            test, pol = test.operand, not pol
+        if not (isinstance(test, ast.Compare) and len(test.ops) == 1):
+            return None
+        # the ordering facts of the arm that ran last are not facts here
+        from . import poly as _poly
+        _poly.ORDER_FACTS[:] = list(env.get('$order', ()))
+        if not pol:
+            vt, vf = vf, vt
+        if vt.k not in ('int', 'bool') or vf.k not in ('int', 'bool') or \
+                vt.p is None or vf.p is None:
+            return None
+        a = self.eval(test.left, env)
+        b = self.eval(test.comparators[0], env)
+        if a.k not in ('int', 'bool') or b.k not in ('int', 'bool') or \
+                a.p is None or b.p is None:
+            return None
+        op = type(test.ops[0])
+        from .poly import pmin, pmax, psubst, leaf_atoms
+        if op in (ast.Gt, ast.GtE, ast.Lt, ast.LtE):
+            big_first = op in (ast.Gt, ast.GtE)
+            if vt.p == a.p and vf.p == b.p:
+                # a if a > b else b
+                return INT(pmax(a.p, b.p) if big_first else pmin(a.p, b.p))
+            if vt.p == b.p and vf.p == a.p:
+                # b if a > b else a
+                return INT(pmin(a.p, b.p) if big_first else pmax(a.p, b.p))
+            return None
+        if op in (ast.Eq, ast.NotEq):
+            v_eq, v_ne = (vt, vf) if op is ast.Eq else (vf, vt)
+            # a == b holds in the v_eq arm: one side must be a single leaf
+            for x, y in ((a.p, b.p), (b.p, a.p)):
+                ats = x.atoms()
+                if len(x.t) == 1 and len(ats) == 1 and x == type(x).sym(
+                        next(iter(ats))):
+                    at = next(iter(ats))
+                    if at in leaf_atoms(v_ne.p) and \
+                            psubst(v_ne.p, at, y) == v_eq.p:
+                        return INT(v_ne.p)
+            return None
+        return None
 
     def ex_BoolOp(self, node, env):
         is_and = isinstance(node.op, ast.And)
